@@ -8,9 +8,10 @@ import Verif.Driver.Wordlist
 import Verif.Driver.Cognates
 import Verif.Driver.GainLoss
 import Verif.Driver.TreeBuild
+import Verif.Driver.MSA
 open Verif.Driver
 
-def handlers : List (List (List String) → Option String) := [handleAlign, handleSC, handleCluster, handleTree, handleHeap, handleCache, handleWL, handleCog, handleGL, handleTB]
+def handlers : List (List (List String) → Option String) := [handleAlign, handleSC, handleCluster, handleTree, handleHeap, handleCache, handleWL, handleCog, handleGL, handleTB, handleMSA]
 
 def dispatch (line : String) : String :=
   let fs := fields line
